@@ -778,11 +778,16 @@ fn decompress_udp(
         &iphc_repr.dst_addr,
         &ChecksumCapabilities::ignored(),
     )?;
-    if udp_repr.header_len() + payload.len() > buffer.len() {
+    // The decompressed header is 8 octets long, whatever the size of the compressed one.
+    if 8 + payload.len() > buffer.len() {
         return Err(Error);
     }
     let udp_payload_len = if let Some(total_len) = total_len {
-        total_len - *payload_len - 8
+        // The datagram size announced by the first fragment must at least cover the
+        // headers decompressed so far.
+        total_len
+            .checked_sub(*payload_len + 8)
+            .ok_or(Error)?
     } else {
         payload.len()
     };
